@@ -236,7 +236,7 @@ impl CountersReader {
     }
 
     fn validate_counter_id(&self, counter_id: i32) -> Result<(), AeronError> {
-        if counter_id < 0 || counter_id > self.max_counter_id {
+        if counter_id < 0 || counter_id >= self.max_counter_id {
             Err(IllegalArgumentError::CounterIdOutOfRange {
                 filename: file!().to_string(),
                 line: line!(),
